@@ -132,6 +132,7 @@ void ddp_string_string_verkettet(ddpstring *ret, ddpstring *str1, ddpstring *str
 	DDP_DBGLOG("_ddp_string_string_verkettet: %p, %p, ret: %p", str1, str2, ret);
 
 	if (ddp_string_empty(str1) && ddp_string_empty(str2)) {
+		ddp_free_string(str1); // an empty string may still own a buffer
 		*ret = DDP_EMPTY_STRING;
 		return;
 	} else if (ddp_string_empty(str1)) {
